@@ -11,6 +11,10 @@ EXT = "en{A,B(u32),C(u8,str),D{x:i16,y:opt(bool)},E(%s),F(seq(u8)),G(unit),H(opt
 ITAG = "it(t){A,B{x:u8,s:str},C(%s),D{v:seq(i32),o:opt(u16)}}" % POINT
 UNTAGGED = "un{Num(u32),Text(str),Pair(u8,u8),Rec{x:u8,y:str},Pt(%s),Big(i64),Fl(f64),Flag(bool)}" % POINT
 
+RECORD = "st{id:u32,note?:opt(str),tags*:seq(u8),last:bool}"
+ALLSKIP = "st{a?:opt(u8),b*:seq(opt(i16))}"
+EVENT = "en{Ping,Update{seq:u64,comment?:opt(str),path*:seq(u16)},Note{text?:opt(%s)}}" % POINT
+
 # name -> (serde descriptor, native descriptor or None)
 SHARED = {
     "bool": "bool", "u8": "u8", "u16": "u16", "u32": "u32", "u64": "u64", "i8": "i8", "i16": "i16", "i32": "i32", "i64": "i64",
@@ -64,6 +68,9 @@ SERDE_ONLY = {
     "ITag": ITAG, "ITagChar": "it(t){V{c:char},W{n:u8}}",
     "ATag": "at(t,c){A,B(u32),C(u8,i8),D{x:str},E(char),F(%s)}" % POINT,
     "Untagged": UNTAGGED, "UntaggedUnit": "un{Nil,Num(u8)}", "UntaggedChar": "un{Ch(char),Pair(u8,u8)}",
+    "Record": RECORD, "AllSkip": ALLSKIP, "Event": EVENT, "Holder": "st{r:%s,e:%s,z:u8}" % (RECORD, EVENT),
+    "vec_record": "seq(%s)" % RECORD, "tup_record_u8": "tup(%s,u8)" % RECORD, "vec_event": "seq(%s)" % EVENT,
+    "tup_allskip_event_u8": "tup(%s,%s,u8)" % (ALLSKIP, EVENT), "opt_record": "opt(%s)" % RECORD,
     "OptOpt": "st{a:opt(opt(u8))}", "vec_itag": "seq(%s)" % ITAG, "vec_untagged": "seq(%s)" % UNTAGGED,
 }
 
@@ -121,8 +128,13 @@ def _pfields(p, close, native=False):
         return out
     while True:
         n = p.word()
+        mark = None
+        if p.peek() in ("?", "*"):          # #[serde(default, skip_serializing_if = "Option::is_none" / "Vec::is_empty")]
+            mark = "none" if p.peek() == "?" else "empty"
+            p.i += 1
         p.eat(":")
-        out.append((n, _ptype(p, native)))
+        ft = _ptype(p, native)
+        out.append((n, ("skip", mark, ft) if mark else ft))
         if p.peek() == ",":
             p.i += 1
         else:
@@ -255,6 +267,28 @@ def show_val(v):
 
 def S(name):
     return ("str", name.encode())
+
+
+def unskip(ft):
+    return ft[2] if ft[0] == "skip" else ft
+
+
+def skipped(ft, v):
+    """the field's skip_serializing_if predicate holds for value v: the entry is not written"""
+    if ft[0] != "skip": return False
+    return v[0] == "none" if ft[1] == "none" else (v[0] == "seq" and not v[2])
+
+
+def gen_fields(rng, fields, depth):
+    """entries of a derived struct / struct variant: run-time skipped fields are left out"""
+    out = []
+    for n, ft in fields:
+        if ft[0] == "skip" and rng.random() < 0.45:
+            continue                                    # predicate true: None / empty Vec
+        v = gen_val(rng, unskip(ft), depth + 1)
+        if not skipped(ft, v):
+            out.append((S(n), v))
+    return out
 
 
 def unhx(a):
@@ -425,13 +459,13 @@ def gen_val(rng, t, depth=0, size=None):
             if len(keys) >= n: break
         ks = [keys[x] for x in sorted(keys)]
         return ("map", t[1], [(kk, gen_val(rng, vt, depth + 1)) for kk in ks])
-    if k == "st": return ("st", [(S(n), gen_val(rng, ft, depth + 1)) for n, ft in t[1]])
+    if k == "st": return ("st", gen_fields(rng, t[1], depth))
     if k == "en":
         n, sh = rng.choice(t[1])
         if sh[0] == "unit": return ("uv", n)
         if sh[0] == "newtype": return ("nv", n, gen_val(rng, sh[1], depth + 1))
         if sh[0] == "tuple": return ("tv", n, [gen_val(rng, x, depth + 1) for x in sh[1]])
-        return ("rv", n, [(S(f), gen_val(rng, ft, depth + 1)) for f, ft in sh[1]])
+        return ("rv", n, gen_fields(rng, sh[1], depth))
     if k == "fl":
         fs = t[1] + t[2] + t[3]
         return ("map", False, [(S(n), gen_val(rng, ft, depth + 1)) for n, ft in fs])
@@ -476,6 +510,7 @@ def accepts(t, v):
     if k == "bytes": return v[0] == "bytes"
     if k == "bool": return v[0] == "bool"
     if k == "opt": return True
+    if k == "skip": return accepts(t[2], v)
     if k == "nt": return accepts(t[1], v[1] if v[0] == "ns" else v)
     if k in ("unit", "ustruct"): return v[0] in ("unit", "ustruct", "tup", "seq", "map", "st")
     if k in ("seq", "tup", "ts"): return v[0] in ("seq", "tup", "ts", "unit", "ustruct")
@@ -585,8 +620,16 @@ def spec_enc(v, opts=None):
     k = v[0]
     if k == "bool": return b"\xf5" if v[1] else b"\xf4"
     if k == "int": return enc_int(v[2], o)
-    if k == "f32": return b"\xfa" + v[1].to_bytes(4, "big")
-    if k == "f64": return b"\xfb" + v[1].to_bytes(8, "big")
+    if k == "f32":
+        if o.get("fnarrow") and o["rng"].random() < o["fnarrow"]:
+            h = narrow(v[1], 32)
+            if h is not None: return b"\xf9" + h
+        return b"\xfa" + v[1].to_bytes(4, "big")
+    if k == "f64":
+        if o.get("fnarrow") and o["rng"].random() < o["fnarrow"]:
+            h = narrow(v[1], 64)
+            if h is not None: return (b"\xfa" if len(h) == 4 else b"\xf9") + h
+        return b"\xfb" + v[1].to_bytes(8, "big")
     if k == "char": return enc_int(v[1], o)
     if k == "str": return enc_text(v[1], o)
     if k == "bytes": return enc_string(2, v[1], o)
@@ -605,6 +648,31 @@ def spec_enc(v, opts=None):
     if k == "rv":
         return head(5, 1, pick_width(1, o)) + enc_text(v[1].encode(), o) + _map(_struct_pairs(v[2], o), o, True, False)
     raise ValueError(k)
+
+
+def narrow(bits, width):
+    """a narrower IEEE encoding of exactly the same (non-NaN) value, if there is one"""
+    import struct
+    try:
+        if width == 64:
+            x = struct.unpack(">d", bits.to_bytes(8, "big"))[0]
+            if x != x: return None
+            for fmt in (">e", ">f"):
+                try:
+                    b = struct.pack(fmt, x)
+                except (OverflowError, struct.error):
+                    continue
+                if struct.unpack(fmt, b)[0] == x and struct.pack(">d", struct.unpack(fmt, b)[0]) == bits.to_bytes(8, "big"):
+                    return b
+            return None
+        x = struct.unpack(">f", bits.to_bytes(4, "big"))[0]
+        if x != x: return None
+        b = struct.pack(">e", x)
+        if struct.pack(">f", struct.unpack(">e", b)[0]) == bits.to_bytes(4, "big"):
+            return b
+    except (OverflowError, struct.error):
+        return None
+    return None
 
 
 EXTRA_TYPES = [parse_type(x) for x in
@@ -694,7 +762,12 @@ def known_classes(t, v, content_first=False):
         elif sh[0] == "tuple":
             for x, y in zip(sh[1], payload): walk(x, y, behind, ref)
         elif sh[0] == "struct":
-            for (_, ft), (_, fv) in zip(sh[1], payload): walk(ft, fv, behind, ref)
+            walk_fields(sh[1], payload, behind, ref)
+
+    def walk_fields(fields, kvs, behind, ref):
+        ft_of = {n.encode(): unskip(ft) for n, ft in fields}
+        for fk, fv in kvs:
+            if fk[0] == "str" and fk[1] in ft_of: walk(ft_of[fk[1]], fv, behind, ref)
 
     def walk(t, v, behind, ref):
         k = t[0]
@@ -714,7 +787,7 @@ def known_classes(t, v, content_first=False):
             for a, b in v[2]:
                 walk(t[2], a, behind, ref); walk(t[3], b, behind, ref)
         elif k == "st":
-            for (_, ft), (_, fv) in zip(t[1], v[1]): walk(ft, fv, behind, ref)
+            walk_fields(t[1], v[1], behind, ref)
         elif k == "en":
             name = v[1]
             sh = dict(t[1])[name]
